@@ -189,6 +189,22 @@ PROPS["C17"] = _e1({
     "assumptions": ["serde_json 1.0 with feature float_roundtrip is the 'exactly rounding float parser' of the statement"],
 })
 
+PROPS["C18"] = _e1({
+    "rule": "the operation menus of C01-C05, C08, C13-C15 re-run under catch_unwind over the totality alphabets: f64: "
+            "V u S (zero, negative zero, subnormals, MIN_POSITIVE, MAX, +-inf, NaN with two payloads) for EVERY operand; "
+            "Decimal: V u R (range edges +-1e-15, +-1e17, +-(1e17-1), +-1.5e-15), admitted iff the magnitude precondition "
+            "of the statement holds, evaluated exactly (operands, reference-unit magnitudes, smallest-unit expression, "
+            "scale product/ratio, divisor in the dividend's unit, own-unit product/quotient, result in every unit). "
+            "Operations: convert/equiv_amount, ==, <, >=, partial_cmp, +, -, / on all ordered unit pairs of all types with "
+            "reference unit; _fit on every alphabet amount; format! under 5 specifications incl. width 40 / precision 20; "
+            "all 56 derived operator instances x all operand unit pairs x T x T; rate*q, q*rate, q/rate and rate "
+            "formatting for 3 type pairs. A panic on an admitted case is a violation; excluded cases are counted per "
+            "clause. The documented panic for different units of a quantity without reference unit is decided by C10 "
+            "(panic iff units differ, over V u S)",
+    "floors": {"quick": {"types": 23, "operator_instances": 52, "admitted_no_panic": 3000000, "derived_ops": 2000000,
+                         "fit_calls": 500}},
+})
+
 
 def setup():
     t0 = time.time()
